@@ -750,6 +750,151 @@ VARIANTS = [
                 self.__dict__[field.attname] = value
                 # no output
             super().__setitem__(field.name, value)""")),
+    # ------------------------------------------------------------------ C08
+    B("C08 revert F13: async wrapper drops asend result", "C08", "R08d",
+      (FUNC, """                if sent is not None:
+                    item = await generator.asend(sent)
+                else:
+                    item = await generator.__anext__()""", """                if sent is not None:
+                    await generator.asend(sent)
+                item = await generator.__anext__()""")),
+    B("C08 eager_generator without resolve_forward_refs", "C08", "R08a",
+      (FUNC, """        def eager_generator(*args, **kwargs) -> Generator:
+            context = (options or self.options).make_context()
+            self.resolve_forward_refs()""", """        def eager_generator(*args, **kwargs) -> Generator:
+            context = (options or self.options).make_context()""")),
+    B("C08 sync_from_generator sends the unconverted value", "C08", "R08c",
+      (FUNC, """                        try:
+                            sent = context.transformer(sent, self.generator_send_type)
+                        except Exception as e:
+                            error = exc.ParseError(
+                                item=f"<generator.send[{i}]>",""", """                        try:
+                            context.transformer(sent, self.generator_send_type)
+                        except Exception as e:
+                            error = exc.ParseError(
+                                item=f"<generator.send[{i}]>",""")),
+    B("C08 sync generator yields the raw item for falsy items", "C08", "R08c",
+      (FUNC, """                if self.generator_yield_type:
+                    try:
+                        item = context.transformer(item, self.generator_yield_type)
+                    except Exception as e:
+                        error = exc.ParseError(
+                            item=f"<generator.yield[{i}]>",""", """                if self.generator_yield_type and item:
+                    try:
+                        item = context.transformer(item, self.generator_yield_type)
+                    except Exception as e:
+                        error = exc.ParseError(
+                            item=f"<generator.yield[{i}]>",""")),
+    B("C08 async call wrapper ignores first_reserve", "C08", "R08a",
+      (FUNC, """        def eager_call(*args, **kwargs):
+            context = (options or self.options).make_context()
+            self.resolve_forward_refs()
+            args, kwargs = self.get_params(
+                args,
+                kwargs,
+                context=context,
+                first_reserve=first_reserve,
+                parse_params=parse_params,
+            )""", """        def eager_call(*args, **kwargs):
+            context = (options or self.options).make_context()
+            self.resolve_forward_refs()
+            args, kwargs = self.get_params(
+                args,
+                kwargs,
+                context=context,
+                parse_params=parse_params,
+            )""")),
+    B("C08 context created once per wrapper, not per call", "C08", "R08a",
+      (FUNC, """            @wraps(self.obj)
+            def f(*args, **kwargs):  # noqa
+                # MAKE CONTEXT AT RUNTIME !
+                context = options.make_context() if options else self.make_context()
+                return self.sync_call(""", """            context = options.make_context() if options else self.make_context()
+
+            @wraps(self.obj)
+            def f(*args, **kwargs):  # noqa
+                return self.sync_call(""")),
+    B("C08 generator return value not converted", "C08", "R08c",
+      (FUNC, """                try:
+                    result = context.transformer(result, self.generator_return_type)
+                except Exception as e:""", """                try:
+                    context.transformer(result, self.generator_return_type)
+                except Exception as e:""")),
+    # ------------------------------------------------------------------ C17
+    B("C17 BaseParser.__call__ without resolve_forward_refs", "C17", "R17a",
+      (BASE, "        self.resolve_forward_refs(ignore_errors=False)\n        if not context:", "        if not context:")),
+    B("C17 resolution only on first call flag", "C17", "R17a",
+      (FUNC, """        self.resolve_forward_refs()
+        args, kwargs = self.get_params(
+            args,
+            kwargs,
+            context=context,
+            first_reserve=first_reserve,
+            parse_params=parse_params,
+        )
+        func = self.obj
+        result = func(*args, **kwargs)""", """        if parse_params:
+            self.resolve_forward_refs()
+        args, kwargs = self.get_params(
+            args,
+            kwargs,
+            context=context,
+            first_reserve=first_reserve,
+            parse_params=parse_params,
+        )
+        func = self.obj
+        result = func(*args, **kwargs)""")),
+    B("C17 late re-parse drops the constraints", "C17", "R17c",
+      (BASE, """                            annotation=value,
+                            constraints=constraints,
+                            global_vars=self.globals,""", """                            annotation=value,
+                            global_vars=self.globals,""")),
+    B("C17 fields not re-resolved", "C17", "R17b",
+      (BASE, """        if resolved:
+            for field in self.fields.values():
+                field.resolve_forward_refs()
+            # resolve for types""", """        if resolved:
+            # resolve for types""")),
+    B("C17 output type not re-resolved", "C17", "R17b",
+      (FIELD, """        if self.output_type:
+            self.output_type, r = resolve_forward_type(self.output_type)
+
+    @property
+    def always_provided""", """    @property
+    def always_provided""")),
+    B("C17 local reset before the fields re-resolve", "C17", "R17e",
+      (BASE, """        if resolved:
+            for field in self.fields.values():
+                field.resolve_forward_refs()
+            # resolve for types
+            self.addition_type, r = resolve_forward_type(self.addition_type)
+        if self.is_local:
+            # ForwardRef in local vars is not cachable
+            # where typing is using a lru_cache
+            # we should clear
+            for ref in clear_refs:
+                ref.__forward_evaluated__ = False
+                ref.__forward_value__ = None""", """        if self.is_local:
+            # ForwardRef in local vars is not cachable
+            # where typing is using a lru_cache
+            # we should clear
+            for ref in clear_refs:
+                ref.__forward_evaluated__ = False
+                ref.__forward_value__ = None
+        if resolved:
+            for field in self.fields.values():
+                field.resolve_forward_refs()
+            # resolve for types
+            self.addition_type, r = resolve_forward_type(self.addition_type)""")),
+    B("C17 apply() dispatches on the reference object", "C17", "R17d",
+      (TRANS, """        if isinstance(t, ForwardRef):
+            if not t.__forward_evaluated__:
+                raise TypeError(f"ForwardRef: {t} not evaluated")
+            t = t.__forward_value__
+        return func(self, data, t)""", """        return func(self, data, t)""")),
+    B("C17 return type not re-resolved for functions", "C17", "R17b",
+      (FUNC, """            if self.return_type:
+                self.return_type, r = resolve_forward_type(self.return_type)""", """            pass""")),
     # ------------------------------------------------------------------ benign
     G("benign gt: not value > gt", (RULE, "        if value <= gt:\n            raise ValueError\n        return value",
                                     "        if not value > gt:\n            raise ValueError\n        return value")),
